@@ -8,7 +8,8 @@
 //!
 //! The Lean acceptor (`alock-accept`) replays each line in the atomic-granularity model.
 //!
-//! usage: inject <prim> <depth> <inner>      enumerate: prefixes up to <depth> calls, <inner> = 1 | 2 injected calls
+//! usage: inject <prim> <depth> <inner> [<post>]   enumerate: prefixes up to <depth> calls, <inner> = 1 | 2
+//!                                           injected calls, <post> = 0 | 1 calls after the preempted one
 //!        inject replay <prim> <param> <key> one scenario (key as printed after `S:`)
 
 use async_lock::__verif::{record_atomics, set_preempt_hook, set_starvation_oracle, take_atomic_log};
@@ -48,14 +49,35 @@ impl Wakers {
         self.0[a].0.store(false, Ordering::SeqCst);
         let w = Waker::from(self.0[a].clone());
         let mut cx = Context::from_waker(&w);
-        f.as_mut().poll(&mut cx)
+        f.poll_dyn(&mut cx)
     }
     fn forget(&self, a: usize) {
         self.0[a].0.store(false, Ordering::SeqCst);
     }
+    fn is_woken(&self, a: usize) -> bool {
+        self.0[a].0.load(Ordering::SeqCst)
+    }
 }
 
-type BoxFut<T> = Pin<Box<dyn Future<Output = T>>>;
+/// A boxed future whose result is mapped; unlike an `async` wrapper block it keeps the crate's own
+/// future alive after completion (needed for the "completed future kept alive" scenarios).
+trait DynFut<T> {
+    fn poll_dyn(&mut self, cx: &mut Context<'_>) -> Poll<T>;
+}
+
+struct Mapped<F, M>(Pin<Box<F>>, M);
+
+impl<T, F: Future, M: FnMut(F::Output) -> T> DynFut<T> for Mapped<F, M> {
+    fn poll_dyn(&mut self, cx: &mut Context<'_>) -> Poll<T> {
+        self.0.as_mut().poll(cx).map(&mut self.1)
+    }
+}
+
+type BoxFut<T> = Box<dyn DynFut<T>>;
+
+fn mapped<T: 'static, F: Future + 'static, M: FnMut(F::Output) -> T + 'static>(f: F, m: M) -> BoxFut<T> {
+    Box::new(Mapped(Box::pin(f), m))
+}
 
 /// Owns a heap value and hands out a `'static` reference to it. The reference must not be used
 /// after the owner is dropped: every `Prim` keeps the owner in its last field, so everything that
@@ -94,6 +116,23 @@ trait Prim: 'static {
     fn monitor(&self, nested: bool) -> Option<String>;
     /// probes made once, after the last call of a scenario (they may disturb the primitive)
     fn final_probe(&self) -> Option<String> {
+        None
+    }
+    /// pending futures whose waker was called and that have not been polled since: (agent, poll call)
+    fn woken(&self) -> Vec<(usize, &'static str)>;
+    /// guards alive: (agent, releasing call)
+    fn releasable(&self) -> Vec<(usize, &'static str)>;
+    /// futures still pending
+    fn pending(&self) -> usize;
+    /// with every guard released and every woken future polled again, must every pending future
+    /// have completed?
+    fn must_finish(&self) -> bool {
+        true
+    }
+    /// tags of the no-lost-wake-up property of this primitive
+    fn wake_tags() -> &'static str;
+    /// probe after the drain, when nothing is held or pending
+    fn idle_probe(&self) -> Option<String> {
         None
     }
 }
@@ -148,7 +187,7 @@ struct Outcome {
 
 /// prefix calls, then `outer` with the inner calls `inner` (indices into the list of calls that
 /// are possible at that moment) injected before its k-th atomic operation
-fn scenario<P: Prim>(param: &str, prefix: &[(usize, String)], outer: (usize, &str), k: usize, inner: &[usize]) -> Outcome {
+fn scenario<P: Prim>(param: &str, prefix: &[(usize, String)], outer: (usize, &str), k: usize, inner: &[usize], post: Option<usize>) -> Outcome {
     record_atomics(true);
     let _ = take_atomic_log();
     let p = P::new(param);
@@ -190,23 +229,70 @@ fn scenario<P: Prim>(param: &str, prefix: &[(usize, String)], outer: (usize, &st
     }
     run.call(outer.0, outer.1);
     set_preempt_hook(None);
-    if run.viol.borrow().is_none() {
-        let v = run.p.final_probe();
+    // one more complete call after the preempted one
+    if let Some(j) = post {
+        let mut all: Vec<(usize, &'static str)> = Vec::new();
+        for b in 0..P::agents() {
+            for c in run.p.calls(b) {
+                all.push((b, c));
+            }
+        }
+        if j >= all.len() {
+            oob.set(true);
+        } else if run.viol.borrow().is_none() {
+            run.call(all[j].0, all[j].1);
+        }
+    }
+    let flag = |v: Option<String>| {
         let _ = take_atomic_log();
         if let Some(v) = v {
-            let v = v.replace(' ', "_");
-            run.ev.borrow_mut().push(format!("V:{}", v));
-            *run.viol.borrow_mut() = Some(v);
+            if run.viol.borrow().is_none() {
+                let v = v.replace(' ', "_");
+                run.ev.borrow_mut().push(format!("V:{}", v));
+                *run.viol.borrow_mut() = Some(v);
+            }
+        }
+    };
+    if run.viol.borrow().is_none() {
+        flag(run.p.final_probe());
+    }
+    // drain: poll whatever was woken, release one guard, repeat. Every wake-up must lead somewhere
+    // (no lost wake-up), and the polls must come to an end (no busy waiting).
+    let mut polls = 0usize;
+    while run.viol.borrow().is_none() {
+        let w = run.p.woken();
+        if !w.is_empty() {
+            for (a, c) in w {
+                run.call(a, c);
+                polls += 1;
+            }
+            if polls > 60 {
+                flag(Some(format!("[C17] after {} re-polls the futures still wake each other", polls)));
+            }
+            continue;
+        }
+        match run.p.releasable().first() {
+            Some(&(a, c)) => run.call(a, c),
+            None => break,
+        }
+    }
+    if run.viol.borrow().is_none() {
+        let n = run.p.pending();
+        if n > 0 && run.p.must_finish() {
+            flag(Some(format!("{} lost wake-up: nothing is held, nobody is woken, {} future(s) still pending", P::wake_tags(), n)));
+        } else if n == 0 {
+            flag(run.p.idle_probe());
         }
     }
     set_starvation_oracle(None);
     let key = format!(
-        "S:{};{}.{};{};{}",
+        "S:{};{}.{};{};{};{}",
         prefix.iter().map(|(a, c)| format!("{}.{}", a, c)).collect::<Vec<_>>().join(","),
         outer.0,
         outer.1,
         k,
-        inner.iter().map(|j| j.to_string()).collect::<Vec<_>>().join(",")
+        inner.iter().map(|j| j.to_string()).collect::<Vec<_>>().join(","),
+        post.map(|j| j.to_string()).unwrap_or_default()
     );
     let line = format!("{} {} {} | {} {}", P::name(), P::agents(), P::header_param(param), key, run.ev.borrow().join(" "));
     let viol = run.viol.borrow().clone();
@@ -247,32 +333,44 @@ fn calls_after<P: Prim>(param: &str, prefix: &[(usize, String)]) -> Vec<(usize, 
     all
 }
 
-fn explore<P: Prim>(param: &str, prefix: &mut Vec<(usize, String)>, depth: usize, inner_n: usize, out: &mut dyn Write, st: &mut Stats) {
+/// the scenario without and (if `post_n > 0`) with every possible call after the preempted one;
+/// false if an inner index was out of range
+fn with_posts<P: Prim>(param: &str, prefix: &[(usize, String)], outer: (usize, &str), k: usize, inner: &[usize], post_n: usize, out: &mut dyn Write, st: &mut Stats) -> bool {
+    let o = scenario::<P>(param, prefix, outer, k, inner, None);
+    if o.oob {
+        return false;
+    }
+    emit(&o, out, st);
+    if post_n > 0 && o.viol.is_none() {
+        let mut j = 0;
+        loop {
+            let o = scenario::<P>(param, prefix, outer, k, inner, Some(j));
+            if o.oob {
+                break;
+            }
+            emit(&o, out, st);
+            j += 1;
+        }
+    }
+    true
+}
+
+fn explore<P: Prim>(param: &str, prefix: &mut Vec<(usize, String)>, depth: usize, inner_n: usize, post_n: usize, out: &mut dyn Write, st: &mut Stats) {
     let calls = calls_after::<P>(param, prefix);
     for (a, c) in calls {
         let mut k = 0;
         loop {
-            let o = scenario::<P>(param, prefix, (a, c), k, &[]);
+            let o = scenario::<P>(param, prefix, (a, c), k, &[], None);
             if !o.fired {
                 // no k-th operation: this is the uninterrupted call
                 emit(&o, out, st);
                 break;
             }
             let mut j1 = 0;
-            loop {
-                let o = scenario::<P>(param, prefix, (a, c), k, &[j1]);
-                if o.oob {
-                    break;
-                }
-                emit(&o, out, st);
+            while with_posts::<P>(param, prefix, (a, c), k, &[j1], post_n, out, st) {
                 if inner_n >= 2 {
                     let mut j2 = 0;
-                    loop {
-                        let o = scenario::<P>(param, prefix, (a, c), k, &[j1, j2]);
-                        if o.oob {
-                            break;
-                        }
-                        emit(&o, out, st);
+                    while with_posts::<P>(param, prefix, (a, c), k, &[j1, j2], post_n, out, st) {
                         j2 += 1;
                     }
                 }
@@ -285,18 +383,18 @@ fn explore<P: Prim>(param: &str, prefix: &mut Vec<(usize, String)>, depth: usize
         }
         if depth > 0 {
             prefix.push((a, c.to_string()));
-            explore::<P>(param, prefix, depth - 1, inner_n, out, st);
+            explore::<P>(param, prefix, depth - 1, inner_n, post_n, out, st);
             prefix.pop();
         }
     }
 }
 
-fn run_all<P: Prim>(depth: usize, inner_n: usize) {
+fn run_all<P: Prim>(depth: usize, inner_n: usize, post_n: usize) {
     let stdout = std::io::stdout();
     let mut out = std::io::BufWriter::with_capacity(1 << 20, stdout.lock());
     let mut st = Stats { scenarios: 0, violations: 0 };
     for param in P::params() {
-        explore::<P>(&param, &mut Vec::new(), depth, inner_n, &mut out, &mut st);
+        explore::<P>(&param, &mut Vec::new(), depth, inner_n, post_n, &mut out, &mut st);
     }
     out.flush().unwrap();
     eprintln!("INJECT prim={} scenarios={} violations={}", P::name(), st.scenarios, st.violations);
@@ -313,7 +411,8 @@ fn replay<P: Prim>(param: &str, key: &str) {
     let outer = pc(parts[1]);
     let k: usize = parts[2].parse().unwrap();
     let inner: Vec<usize> = parts.get(3).unwrap_or(&"").split(',').filter(|s| !s.is_empty()).map(|s| s.parse().unwrap()).collect();
-    let o = scenario::<P>(param, &prefix, (outer.0, &outer.1), k, &inner);
+    let post: Option<usize> = parts.get(4).and_then(|s| s.parse().ok());
+    let o = scenario::<P>(param, &prefix, (outer.0, &outer.1), k, &inner, post);
     println!("{}", o.line);
     if let Some(v) = o.viol {
         eprintln!("VIOLATION {}", v);
@@ -332,14 +431,17 @@ enum MSlot {
     Idle,
     Busy,
     Fut(BoxFut<MG>),
-    Held(MG),
+    /// the guard, and (parameter `keep=1`) the completed future that produced it
+    Held(MG, Option<BoxFut<MG>>),
 }
 
 /// `slots` (futures and guards borrowing the primitive) is declared, and therefore dropped, before
 /// the owner of the primitive.
 struct MutexP {
     slots: Vec<RefCell<MSlot>>,
+    grave: RefCell<Vec<BoxFut<MG>>>,
     wk: Wakers,
+    keep: bool,
     m: &'static Arc<Mutex<usize>>,
     _own: Owner<Arc<Mutex<usize>>>,
 }
@@ -352,20 +454,20 @@ impl Prim for MutexP {
         3
     }
     fn params() -> Vec<String> {
-        vec!["fire=0".into(), "fire=1".into()]
+        vec!["fire=0,keep=0".into(), "fire=1,keep=0".into(), "fire=0,keep=1".into(), "fire=1,keep=1".into()]
     }
     fn new(param: &str) -> Self {
-        let fire = param == "fire=1";
+        let fire = param.contains("fire=1");
         set_starvation_oracle(Some(Box::new(move || fire)));
         let (own, m) = Owner::new(Arc::new(Mutex::new(0)));
-        MutexP { m, _own: own, slots: (0..Self::agents()).map(|_| RefCell::new(MSlot::Idle)).collect(), wk: Wakers::new(Self::agents()) }
+        MutexP { grave: RefCell::new(Vec::new()), keep: param.contains("keep=1"), m, _own: own, slots: (0..Self::agents()).map(|_| RefCell::new(MSlot::Idle)).collect(), wk: Wakers::new(Self::agents()) }
     }
     fn calls(&self, a: usize) -> Vec<&'static str> {
         match &*self.slots[a].borrow() {
             MSlot::Idle => vec!["tryLock", "tryLockArc", "lock", "lockArc"],
             MSlot::Busy => vec![],
             MSlot::Fut(_) => vec!["poll", "cancel"],
-            MSlot::Held(_) => vec!["unlock"],
+            MSlot::Held(..) => vec!["unlock"],
         }
     }
     fn exec(&self, a: usize, call: &str) -> &'static str {
@@ -373,26 +475,22 @@ impl Prim for MutexP {
         let m = self.m;
         let (next, res) = match (slot, call) {
             (MSlot::Idle, "tryLock") => match m.try_lock() {
-                Some(g) => (MSlot::Held(MG::B(g)), "some"),
+                Some(g) => (MSlot::Held(MG::B(g), None), "some"),
                 None => (MSlot::Idle, "none"),
             },
             (MSlot::Idle, "tryLockArc") => match m.try_lock_arc() {
-                Some(g) => (MSlot::Held(MG::A(g)), "some"),
+                Some(g) => (MSlot::Held(MG::A(g), None), "some"),
                 None => (MSlot::Idle, "none"),
             },
             (MSlot::Idle, "lock") | (MSlot::Idle, "lockArc") => {
-                let mut f: BoxFut<MG> = if call == "lock" {
-                    Box::pin(async move { MG::B(m.lock().await) })
-                } else {
-                    Box::pin(async move { MG::A(m.lock_arc().await) })
-                };
+                let mut f: BoxFut<MG> = if call == "lock" { mapped(m.lock(), MG::B) } else { mapped(m.lock_arc(), MG::A) };
                 match self.wk.poll(a, &mut f) {
-                    Poll::Ready(g) => (MSlot::Held(g), "ready"),
+                    Poll::Ready(g) => (MSlot::Held(g, if self.keep { Some(f) } else { None }), "ready"),
                     Poll::Pending => (MSlot::Fut(f), "pending"),
                 }
             }
             (MSlot::Fut(mut f), "poll") => match self.wk.poll(a, &mut f) {
-                Poll::Ready(g) => (MSlot::Held(g), "ready"),
+                Poll::Ready(g) => (MSlot::Held(g, if self.keep { Some(f) } else { None }), "ready"),
                 Poll::Pending => (MSlot::Fut(f), "pending"),
             },
             (MSlot::Fut(f), "cancel") => {
@@ -400,11 +498,13 @@ impl Prim for MutexP {
                 drop(f);
                 (MSlot::Idle, "ok")
             }
-            (MSlot::Held(g), "unlock") => {
+            (MSlot::Held(g, kept), "unlock") => {
                 match g {
                     MG::B(g) => drop(g),
                     MG::A(g) => drop(g),
                 }
+                // a completed future that is kept alive stays alive to the end of the scenario
+                self.grave.borrow_mut().extend(kept);
                 (MSlot::Idle, "ok")
             }
             _ => panic!("invalid call {}", call),
@@ -416,19 +516,31 @@ impl Prim for MutexP {
         self.m.__verif_snapshot().addrs
     }
     fn monitor(&self, _nested: bool) -> Option<String> {
-        let held = self.slots.iter().filter(|s| matches!(&*s.borrow(), MSlot::Held(_))).count();
+        let held = self.slots.iter().filter(|s| matches!(&*s.borrow(), MSlot::Held(..))).count();
         if held > 1 {
             Some(format!("[C01,C14] {} mutex guards alive at once", held))
         } else {
             None
         }
     }
-    fn final_probe(&self) -> Option<String> {
+    fn idle_probe(&self) -> Option<String> {
         // C14: nothing held, nothing pending: try_lock succeeds
-        if self.slots.iter().all(|s| matches!(&*s.borrow(), MSlot::Idle)) && self.m.try_lock().is_none() {
+        if self.m.try_lock().is_none() {
             return Some("[C14,C10] try_lock fails on a mutex that nobody holds or waits for".into());
         }
         None
+    }
+    fn woken(&self) -> Vec<(usize, &'static str)> {
+        (0..Self::agents()).filter(|&a| matches!(&*self.slots[a].borrow(), MSlot::Fut(_)) && self.wk.is_woken(a)).map(|a| (a, "poll")).collect()
+    }
+    fn releasable(&self) -> Vec<(usize, &'static str)> {
+        (0..Self::agents()).filter(|&a| matches!(&*self.slots[a].borrow(), MSlot::Held(..))).map(|a| (a, "unlock")).collect()
+    }
+    fn pending(&self) -> usize {
+        self.slots.iter().filter(|s| matches!(&*s.borrow(), MSlot::Fut(_))).count()
+    }
+    fn wake_tags() -> &'static str {
+        "[C05,C10]"
     }
 }
 
@@ -443,17 +555,19 @@ enum SSlot {
     Idle,
     Busy,
     Fut(BoxFut<SG>),
-    Held(SG),
+    Held(SG, Option<BoxFut<SG>>),
 }
 
 struct SemP {
     slots: Vec<RefCell<SSlot>>,
+    grave: RefCell<Vec<BoxFut<SG>>>,
     s: &'static Arc<Semaphore>,
     _own: Owner<Arc<Semaphore>>,
     init: usize,
     added: Cell<usize>,
     forgotten: Cell<usize>,
     wk: Wakers,
+    keep: bool,
 }
 
 impl Prim for SemP {
@@ -464,12 +578,16 @@ impl Prim for SemP {
         3
     }
     fn params() -> Vec<String> {
-        vec!["0".into(), "1".into(), "2".into()]
+        vec!["0".into(), "1".into(), "2".into(), "1,keep=1".into()]
+    }
+    fn header_param(param: &str) -> String {
+        param.split(',').next().unwrap().to_string()
     }
     fn new(param: &str) -> Self {
-        let n: usize = param.parse().unwrap();
+        let n: usize = param.split(',').next().unwrap().parse().unwrap();
         let (own, s) = Owner::new(Arc::new(Semaphore::new(n)));
         SemP {
+            grave: RefCell::new(Vec::new()),
             s,
             _own: own,
             slots: (0..Self::agents()).map(|_| RefCell::new(SSlot::Idle)).collect(),
@@ -477,6 +595,7 @@ impl Prim for SemP {
             added: Cell::new(0),
             forgotten: Cell::new(0),
             wk: Wakers::new(Self::agents()),
+            keep: param.contains("keep=1"),
         }
     }
     fn calls(&self, a: usize) -> Vec<&'static str> {
@@ -484,7 +603,7 @@ impl Prim for SemP {
             SSlot::Idle => vec!["tryAcq", "tryAcqArc", "acquire", "acquireArc", "add1"],
             SSlot::Busy => vec![],
             SSlot::Fut(_) => vec!["poll", "cancel"],
-            SSlot::Held(_) => vec!["release", "forget"],
+            SSlot::Held(..) => vec!["release", "forget"],
         }
     }
     fn exec(&self, a: usize, call: &str) -> &'static str {
@@ -492,21 +611,17 @@ impl Prim for SemP {
         let s = self.s;
         let (next, res) = match (slot, call) {
             (SSlot::Idle, "tryAcq") => match s.try_acquire() {
-                Some(g) => (SSlot::Held(SG::B(g)), "some"),
+                Some(g) => (SSlot::Held(SG::B(g), None), "some"),
                 None => (SSlot::Idle, "none"),
             },
             (SSlot::Idle, "tryAcqArc") => match s.try_acquire_arc() {
-                Some(g) => (SSlot::Held(SG::A(g)), "some"),
+                Some(g) => (SSlot::Held(SG::A(g), None), "some"),
                 None => (SSlot::Idle, "none"),
             },
             (SSlot::Idle, "acquire") | (SSlot::Idle, "acquireArc") => {
-                let mut f: BoxFut<SG> = if call == "acquire" {
-                    Box::pin(async move { SG::B(s.acquire().await) })
-                } else {
-                    Box::pin(async move { SG::A(s.acquire_arc().await) })
-                };
+                let mut f: BoxFut<SG> = if call == "acquire" { mapped(s.acquire(), SG::B) } else { mapped(s.acquire_arc(), SG::A) };
                 match self.wk.poll(a, &mut f) {
-                    Poll::Ready(g) => (SSlot::Held(g), "ready"),
+                    Poll::Ready(g) => (SSlot::Held(g, if self.keep { Some(f) } else { None }), "ready"),
                     Poll::Pending => (SSlot::Fut(f), "pending"),
                 }
             }
@@ -517,7 +632,7 @@ impl Prim for SemP {
                 (SSlot::Idle, "ok")
             }
             (SSlot::Fut(mut f), "poll") => match self.wk.poll(a, &mut f) {
-                Poll::Ready(g) => (SSlot::Held(g), "ready"),
+                Poll::Ready(g) => (SSlot::Held(g, if self.keep { Some(f) } else { None }), "ready"),
                 Poll::Pending => (SSlot::Fut(f), "pending"),
             },
             (SSlot::Fut(f), "cancel") => {
@@ -525,19 +640,21 @@ impl Prim for SemP {
                 drop(f);
                 (SSlot::Idle, "ok")
             }
-            (SSlot::Held(g), "release") => {
+            (SSlot::Held(g, kept), "release") => {
                 match g {
                     SG::B(g) => drop(g),
                     SG::A(g) => drop(g),
                 }
+                self.grave.borrow_mut().extend(kept);
                 (SSlot::Idle, "ok")
             }
-            (SSlot::Held(g), "forget") => {
+            (SSlot::Held(g, kept), "forget") => {
                 self.forgotten.set(self.forgotten.get() + 1);
                 match g {
                     SG::B(g) => g.forget(),
                     SG::A(g) => g.forget(),
                 }
+                self.grave.borrow_mut().extend(kept);
                 (SSlot::Idle, "ok")
             }
             _ => panic!("invalid call {}", call),
@@ -549,7 +666,7 @@ impl Prim for SemP {
         self.s.__verif_snapshot().addrs
     }
     fn monitor(&self, nested: bool) -> Option<String> {
-        let held = self.slots.iter().filter(|s| matches!(&*s.borrow(), SSlot::Held(_))).count();
+        let held = self.slots.iter().filter(|s| matches!(&*s.borrow(), SSlot::Held(..))).count();
         let total = self.init + self.added.get();
         if held + self.forgotten.get() > total {
             return Some(format!("[C03,C14] {} permits out (held or forgotten) but only {} exist", held + self.forgotten.get(), total));
@@ -561,6 +678,22 @@ impl Prim for SemP {
             }
         }
         None
+    }
+    fn woken(&self) -> Vec<(usize, &'static str)> {
+        (0..Self::agents()).filter(|&a| matches!(&*self.slots[a].borrow(), SSlot::Fut(_)) && self.wk.is_woken(a)).map(|a| (a, "poll")).collect()
+    }
+    fn releasable(&self) -> Vec<(usize, &'static str)> {
+        (0..Self::agents()).filter(|&a| matches!(&*self.slots[a].borrow(), SSlot::Held(..))).map(|a| (a, "release")).collect()
+    }
+    fn pending(&self) -> usize {
+        self.slots.iter().filter(|s| matches!(&*s.borrow(), SSlot::Fut(_))).count()
+    }
+    fn must_finish(&self) -> bool {
+        // a waiter may only remain if no permit is available
+        self.s.__verif_snapshot().words[0] > 0
+    }
+    fn wake_tags() -> &'static str {
+        "[C07,C10]"
     }
 }
 
@@ -585,21 +718,41 @@ impl RG {
     }
 }
 
+type Kept = Vec<BoxFut<RG>>;
+
 enum RSlot {
     Idle,
     Busy,
-    Held(RG),
+    /// the guard, and (parameter `keep=1`) the completed futures that led to it
+    Held(RG, Kept),
     FutR(BoxFut<RG>),
-    FutUp(BoxFut<RG>),
+    FutUp(BoxFut<RG>, Kept),
     FutW(BoxFut<RG>),
     FutU(BoxFut<RG>),
 }
 
 struct RwP {
     slots: Vec<RefCell<RSlot>>,
+    grave: RefCell<Kept>,
     wk: Wakers,
+    keep: bool,
     l: &'static Arc<RwLock<usize>>,
     _own: Owner<Arc<RwLock<usize>>>,
+}
+
+impl RwP {
+    /// first poll / re-poll of a future; `mk` rebuilds the pending slot
+    fn drive(&self, a: usize, mut f: BoxFut<RG>, mut kept: Kept, mk: fn(BoxFut<RG>, Kept) -> RSlot) -> (RSlot, &'static str) {
+        match self.wk.poll(a, &mut f) {
+            Poll::Ready(g) => {
+                if self.keep {
+                    kept.push(f);
+                }
+                (RSlot::Held(g, kept), "ready")
+            }
+            Poll::Pending => (mk(f, kept), "pending"),
+        }
+    }
 }
 
 impl Prim for RwP {
@@ -610,13 +763,20 @@ impl Prim for RwP {
         3
     }
     fn params() -> Vec<String> {
-        vec!["fire=0".into(), "fire=1".into()]
+        vec!["fire=0,keep=0".into(), "fire=1,keep=0".into(), "fire=0,keep=1".into()]
     }
     fn new(param: &str) -> Self {
-        let fire = param == "fire=1";
+        let fire = param.contains("fire=1");
         set_starvation_oracle(Some(Box::new(move || fire)));
         let (own, l) = Owner::new(Arc::new(RwLock::new(0)));
-        RwP { l, _own: own, slots: (0..Self::agents()).map(|_| RefCell::new(RSlot::Idle)).collect(), wk: Wakers::new(Self::agents()) }
+        RwP {
+            grave: RefCell::new(Vec::new()),
+            keep: param.contains("keep=1"),
+            l,
+            _own: own,
+            slots: (0..Self::agents()).map(|_| RefCell::new(RSlot::Idle)).collect(),
+            wk: Wakers::new(Self::agents()),
+        }
     }
     fn calls(&self, a: usize) -> Vec<&'static str> {
         match &*self.slots[a].borrow() {
@@ -625,13 +785,13 @@ impl Prim for RwP {
                 "uread", "ureadArc",
             ],
             RSlot::Busy => vec![],
-            RSlot::Held(g) => match g.kind() {
+            RSlot::Held(g, _) => match g.kind() {
                 'r' => vec!["dropR"],
                 'u' => vec!["dropU", "tryUpgrade", "dgU", "upgrade"],
                 _ => vec!["dropW", "dgW", "dgWU"],
             },
             RSlot::FutR(_) => vec!["pollR", "cancelR"],
-            RSlot::FutUp(_) => vec!["pollUp", "cancelUp"],
+            RSlot::FutUp(..) => vec!["pollUp", "cancelUp"],
             RSlot::FutW(_) => vec!["pollW", "cancelW"],
             RSlot::FutU(_) => vec!["pollU", "cancelU"],
         }
@@ -640,7 +800,7 @@ impl Prim for RwP {
         let slot = self.slots[a].replace(RSlot::Busy);
         let l = self.l;
         let opt = |g: Option<RG>| match g {
-            Some(g) => (RSlot::Held(g), "some"),
+            Some(g) => (RSlot::Held(g, Vec::new()), "some"),
             None => (RSlot::Idle, "none"),
         };
         let (next, res) = match (slot, call) {
@@ -650,105 +810,48 @@ impl Prim for RwP {
             (RSlot::Idle, "tryWriteArc") => opt(l.try_write_arc().map(RG::WA)),
             (RSlot::Idle, "tryUread") => opt(l.try_upgradable_read().map(RG::U)),
             (RSlot::Idle, "tryUreadArc") => opt(l.try_upgradable_read_arc().map(RG::UA)),
-            (RSlot::Idle, "read") | (RSlot::Idle, "readArc") => {
-                // the future is created here: `RawRead::new` loads the word
-                let mut f: BoxFut<RG> = if call == "read" {
-                    let f = l.read();
-                    Box::pin(async move { RG::R(f.await) })
-                } else {
-                    let f = l.read_arc();
-                    Box::pin(async move { RG::RA(f.await) })
-                };
-                match self.wk.poll(a, &mut f) {
-                    Poll::Ready(g) => (RSlot::Held(g), "ready"),
-                    Poll::Pending => (RSlot::FutR(f), "pending"),
-                }
-            }
-            (RSlot::FutR(mut f), "pollR") => match self.wk.poll(a, &mut f) {
-                Poll::Ready(g) => (RSlot::Held(g), "ready"),
-                Poll::Pending => (RSlot::FutR(f), "pending"),
-            },
+            // the futures are created here: `RawRead::new` loads the word
+            (RSlot::Idle, "read") => self.drive(a, mapped(l.read(), RG::R), Vec::new(), |f, _| RSlot::FutR(f)),
+            (RSlot::Idle, "readArc") => self.drive(a, mapped(l.read_arc(), RG::RA), Vec::new(), |f, _| RSlot::FutR(f)),
+            (RSlot::FutR(f), "pollR") => self.drive(a, f, Vec::new(), |f, _| RSlot::FutR(f)),
+            (RSlot::Idle, "write") => self.drive(a, mapped(l.write(), RG::W), Vec::new(), |f, _| RSlot::FutW(f)),
+            (RSlot::Idle, "writeArc") => self.drive(a, mapped(l.write_arc(), RG::WA), Vec::new(), |f, _| RSlot::FutW(f)),
+            (RSlot::FutW(f), "pollW") => self.drive(a, f, Vec::new(), |f, _| RSlot::FutW(f)),
+            (RSlot::Idle, "uread") => self.drive(a, mapped(l.upgradable_read(), RG::U), Vec::new(), |f, _| RSlot::FutU(f)),
+            (RSlot::Idle, "ureadArc") => self.drive(a, mapped(l.upgradable_read_arc(), RG::UA), Vec::new(), |f, _| RSlot::FutU(f)),
+            (RSlot::FutU(f), "pollU") => self.drive(a, f, Vec::new(), |f, _| RSlot::FutU(f)),
             (RSlot::FutR(f), "cancelR") | (RSlot::FutW(f), "cancelW") | (RSlot::FutU(f), "cancelU") => {
                 self.wk.forget(a);
                 drop(f);
                 (RSlot::Idle, "ok")
             }
-            (RSlot::Idle, "write") | (RSlot::Idle, "writeArc") => {
-                let mut f: BoxFut<RG> = if call == "write" {
-                    let f = l.write();
-                    Box::pin(async move { RG::W(f.await) })
-                } else {
-                    let f = l.write_arc();
-                    Box::pin(async move { RG::WA(f.await) })
-                };
-                match self.wk.poll(a, &mut f) {
-                    Poll::Ready(g) => (RSlot::Held(g), "ready"),
-                    Poll::Pending => (RSlot::FutW(f), "pending"),
-                }
-            }
-            (RSlot::FutW(mut f), "pollW") => match self.wk.poll(a, &mut f) {
-                Poll::Ready(g) => (RSlot::Held(g), "ready"),
-                Poll::Pending => (RSlot::FutW(f), "pending"),
-            },
-            (RSlot::Idle, "uread") | (RSlot::Idle, "ureadArc") => {
-                let mut f: BoxFut<RG> = if call == "uread" {
-                    let f = l.upgradable_read();
-                    Box::pin(async move { RG::U(f.await) })
-                } else {
-                    let f = l.upgradable_read_arc();
-                    Box::pin(async move { RG::UA(f.await) })
-                };
-                match self.wk.poll(a, &mut f) {
-                    Poll::Ready(g) => (RSlot::Held(g), "ready"),
-                    Poll::Pending => (RSlot::FutU(f), "pending"),
-                }
-            }
-            (RSlot::FutU(mut f), "pollU") => match self.wk.poll(a, &mut f) {
-                Poll::Ready(g) => (RSlot::Held(g), "ready"),
-                Poll::Pending => (RSlot::FutU(f), "pending"),
-            },
-            (RSlot::Held(g), "dropR") | (RSlot::Held(g), "dropU") | (RSlot::Held(g), "dropW") => {
+            (RSlot::Held(g, kept), "dropR") | (RSlot::Held(g, kept), "dropU") | (RSlot::Held(g, kept), "dropW") => {
                 drop(g);
+                self.grave.borrow_mut().extend(kept);
                 (RSlot::Idle, "ok")
             }
-            (RSlot::Held(RG::U(g)), "tryUpgrade") => match RwLockUpgradableReadGuard::try_upgrade(g) {
-                Ok(w) => (RSlot::Held(RG::W(w)), "ok"),
-                Err(g) => (RSlot::Held(RG::U(g)), "err"),
+            (RSlot::Held(RG::U(g), k), "tryUpgrade") => match RwLockUpgradableReadGuard::try_upgrade(g) {
+                Ok(w) => (RSlot::Held(RG::W(w), k), "ok"),
+                Err(g) => (RSlot::Held(RG::U(g), k), "err"),
             },
-            (RSlot::Held(RG::UA(g)), "tryUpgrade") => match RwLockUpgradableReadGuardArc::try_upgrade(g) {
-                Ok(w) => (RSlot::Held(RG::WA(w)), "ok"),
-                Err(g) => (RSlot::Held(RG::UA(g)), "err"),
+            (RSlot::Held(RG::UA(g), k), "tryUpgrade") => match RwLockUpgradableReadGuardArc::try_upgrade(g) {
+                Ok(w) => (RSlot::Held(RG::WA(w), k), "ok"),
+                Err(g) => (RSlot::Held(RG::UA(g), k), "err"),
             },
-            (RSlot::Held(RG::U(g)), "dgU") => (RSlot::Held(RG::R(RwLockUpgradableReadGuard::downgrade(g))), "ok"),
-            (RSlot::Held(RG::UA(g)), "dgU") => (RSlot::Held(RG::RA(RwLockUpgradableReadGuardArc::downgrade(g))), "ok"),
-            (RSlot::Held(RG::W(g)), "dgW") => (RSlot::Held(RG::R(RwLockWriteGuard::downgrade(g))), "ok"),
-            (RSlot::Held(RG::WA(g)), "dgW") => (RSlot::Held(RG::RA(RwLockWriteGuardArc::downgrade(g))), "ok"),
-            (RSlot::Held(RG::W(g)), "dgWU") => (RSlot::Held(RG::U(RwLockWriteGuard::downgrade_to_upgradable(g))), "ok"),
-            (RSlot::Held(RG::WA(g)), "dgWU") => (RSlot::Held(RG::UA(RwLockWriteGuardArc::downgrade_to_upgradable(g))), "ok"),
-            (RSlot::Held(g), "upgrade") => {
-                let mut f: BoxFut<RG> = match g {
-                    RG::U(g) => {
-                        let f = RwLockUpgradableReadGuard::upgrade(g);
-                        Box::pin(async move { RG::W(f.await) })
-                    }
-                    RG::UA(g) => {
-                        let f = RwLockUpgradableReadGuardArc::upgrade(g);
-                        Box::pin(async move { RG::WA(f.await) })
-                    }
-                    _ => panic!("upgrade of a guard that is not upgradable"),
-                };
-                match self.wk.poll(a, &mut f) {
-                    Poll::Ready(g) => (RSlot::Held(g), "ready"),
-                    Poll::Pending => (RSlot::FutUp(f), "pending"),
-                }
-            }
-            (RSlot::FutUp(mut f), "pollUp") => match self.wk.poll(a, &mut f) {
-                Poll::Ready(g) => (RSlot::Held(g), "ready"),
-                Poll::Pending => (RSlot::FutUp(f), "pending"),
-            },
-            (RSlot::FutUp(f), "cancelUp") => {
+            (RSlot::Held(RG::U(g), k), "dgU") => (RSlot::Held(RG::R(RwLockUpgradableReadGuard::downgrade(g)), k), "ok"),
+            (RSlot::Held(RG::UA(g), k), "dgU") => (RSlot::Held(RG::RA(RwLockUpgradableReadGuardArc::downgrade(g)), k), "ok"),
+            (RSlot::Held(RG::W(g), k), "dgW") => (RSlot::Held(RG::R(RwLockWriteGuard::downgrade(g)), k), "ok"),
+            (RSlot::Held(RG::WA(g), k), "dgW") => (RSlot::Held(RG::RA(RwLockWriteGuardArc::downgrade(g)), k), "ok"),
+            (RSlot::Held(RG::W(g), k), "dgWU") => (RSlot::Held(RG::U(RwLockWriteGuard::downgrade_to_upgradable(g)), k), "ok"),
+            (RSlot::Held(RG::WA(g), k), "dgWU") => (RSlot::Held(RG::UA(RwLockWriteGuardArc::downgrade_to_upgradable(g)), k), "ok"),
+            // `upgrade()` itself performs the `fetch_sub`
+            (RSlot::Held(RG::U(g), k), "upgrade") => self.drive(a, mapped(RwLockUpgradableReadGuard::upgrade(g), RG::W), k, RSlot::FutUp),
+            (RSlot::Held(RG::UA(g), k), "upgrade") => self.drive(a, mapped(RwLockUpgradableReadGuardArc::upgrade(g), RG::WA), k, RSlot::FutUp),
+            (RSlot::FutUp(f, k), "pollUp") => self.drive(a, f, k, RSlot::FutUp),
+            (RSlot::FutUp(f, k), "cancelUp") => {
                 self.wk.forget(a);
                 drop(f);
+                drop(k);
                 (RSlot::Idle, "ok")
             }
             _ => panic!("invalid call {}", call),
@@ -762,7 +865,7 @@ impl Prim for RwP {
     fn monitor(&self, _nested: bool) -> Option<String> {
         let (mut r, mut u, mut w) = (0, 0, 0);
         for s in &self.slots {
-            if let RSlot::Held(g) = &*s.borrow() {
+            if let RSlot::Held(g, _) = &*s.borrow() {
                 match g.kind() {
                     'r' => r += 1,
                     'u' => u += 1,
@@ -779,22 +882,59 @@ impl Prim for RwP {
         }
     }
     fn final_probe(&self) -> Option<String> {
-        let all_idle = self.slots.iter().all(|s| matches!(&*s.borrow(), RSlot::Idle));
-        if all_idle {
-            // C14: nothing held, nothing pending: try_write succeeds
-            if self.l.try_write().is_none() {
-                return Some("[C14,C10] try_write fails on a lock that nobody holds or waits for".into());
-            }
-            return None;
-        }
         // C12: a polled writer or upgrade is pending, no write or upgradable guard is alive, every
         // woken task has been polled again: readers are refused
-        let pending_writer = self.slots.iter().any(|s| matches!(&*s.borrow(), RSlot::FutW(_) | RSlot::FutUp(_)));
-        let wu_guard = self.slots.iter().any(|s| matches!(&*s.borrow(), RSlot::Held(g) if g.kind() != 'r'));
-        if pending_writer && !wu_guard && !self.wk.any_woken() && self.l.try_read().is_some() {
-            return Some("[C12] try_read succeeds while a polled writer is pending at quiescence".into());
+        let pending_writer = self.slots.iter().any(|s| matches!(&*s.borrow(), RSlot::FutW(_) | RSlot::FutUp(..)));
+        let wu_guard = self.slots.iter().any(|s| matches!(&*s.borrow(), RSlot::Held(g, _) if g.kind() != 'r'));
+        if pending_writer && !wu_guard && !self.wk.any_woken() {
+            if let Some(g) = self.l.try_read() {
+                // put things back as they were before reporting
+                drop(g);
+                return Some("[C12] try_read succeeds while a polled writer is pending at quiescence".into());
+            }
         }
         None
+    }
+    fn idle_probe(&self) -> Option<String> {
+        // C14: nothing held, nothing pending: try_write succeeds
+        if self.l.try_write().is_none() {
+            return Some("[C14,C10] try_write fails on a lock that nobody holds or waits for".into());
+        }
+        None
+    }
+    fn woken(&self) -> Vec<(usize, &'static str)> {
+        let mut v = Vec::new();
+        for a in 0..Self::agents() {
+            if self.wk.is_woken(a) {
+                match &*self.slots[a].borrow() {
+                    RSlot::FutR(_) => v.push((a, "pollR")),
+                    RSlot::FutW(_) => v.push((a, "pollW")),
+                    RSlot::FutU(_) => v.push((a, "pollU")),
+                    RSlot::FutUp(..) => v.push((a, "pollUp")),
+                    _ => {}
+                }
+            }
+        }
+        v
+    }
+    fn releasable(&self) -> Vec<(usize, &'static str)> {
+        let mut v = Vec::new();
+        for a in 0..Self::agents() {
+            if let RSlot::Held(g, _) = &*self.slots[a].borrow() {
+                v.push((a, match g.kind() {
+                    'r' => "dropR",
+                    'u' => "dropU",
+                    _ => "dropW",
+                }));
+            }
+        }
+        v
+    }
+    fn pending(&self) -> usize {
+        self.slots.iter().filter(|s| matches!(&*s.borrow(), RSlot::FutR(_) | RSlot::FutW(_) | RSlot::FutU(_) | RSlot::FutUp(..))).count()
+    }
+    fn wake_tags() -> &'static str {
+        "[C06,C10]"
     }
 }
 
@@ -875,34 +1015,40 @@ impl Prim for OnceP {
                 let v = 10 + a;
                 fin(
                     self,
-                    Box::pin(async move {
-                        Ok(*c
-                            .get_or_init(|| async move {
-                                inits.set(inits.get() + 1);
-                                v
-                            })
-                            .await)
-                    }),
+                    mapped(
+                        async move {
+                            Ok(*c
+                                .get_or_init(|| async move {
+                                    inits.set(inits.get() + 1);
+                                    v
+                                })
+                                .await)
+                        },
+                        |x| x,
+                    ),
                 )
             }
             (OSlot::Idle, "tryInitErr") => fin(
                 self,
-                Box::pin(async move { c.get_or_try_init(|| async move { Err::<usize, ()>(()) }).await.map(|v| *v) }),
+                mapped(async move { c.get_or_try_init(|| async move { Err::<usize, ()>(()) }).await.map(|v| *v) }, |x| x),
             ),
             (OSlot::Idle, "set") => {
                 let inits = self.inits.clone();
                 let v = 20 + a;
                 fin(
                     self,
-                    Box::pin(async move {
-                        match c.set(v).await {
-                            Ok(r) => {
-                                inits.set(inits.get() + 1);
-                                Ok(*r)
+                    mapped(
+                        async move {
+                            match c.set(v).await {
+                                Ok(r) => {
+                                    inits.set(inits.get() + 1);
+                                    Ok(*r)
+                                }
+                                Err(_) => Err(()),
                             }
-                            Err(_) => Err(()),
-                        }
-                    }),
+                        },
+                        |x| x,
+                    ),
                 )
             }
             (OSlot::Fut(f), "poll") => fin(self, f),
@@ -931,6 +1077,18 @@ impl Prim for OnceP {
         }
         None
     }
+    fn woken(&self) -> Vec<(usize, &'static str)> {
+        (0..Self::agents()).filter(|&a| matches!(&*self.slots[a].borrow(), OSlot::Fut(_)) && self.wk.is_woken(a)).map(|a| (a, "poll")).collect()
+    }
+    fn releasable(&self) -> Vec<(usize, &'static str)> {
+        Vec::new()
+    }
+    fn pending(&self) -> usize {
+        self.slots.iter().filter(|s| matches!(&*s.borrow(), OSlot::Fut(_))).count()
+    }
+    fn wake_tags() -> &'static str {
+        "[C08]"
+    }
 }
 
 fn main() {
@@ -949,11 +1107,12 @@ fn main() {
         Some(prim) => {
             let depth: usize = args[2].parse().expect("depth");
             let inner: usize = args[3].parse().expect("inner");
+            let post: usize = args.get(4).map(|s| s.parse().expect("post")).unwrap_or(0);
             match prim {
-                "mutex" => run_all::<MutexP>(depth, inner),
-                "sem" => run_all::<SemP>(depth, inner),
-                "rwlock" => run_all::<RwP>(depth, inner),
-                "once" => run_all::<OnceP>(depth, inner),
+                "mutex" => run_all::<MutexP>(depth, inner, post),
+                "sem" => run_all::<SemP>(depth, inner, post),
+                "rwlock" => run_all::<RwP>(depth, inner, post),
+                "once" => run_all::<OnceP>(depth, inner, post),
                 _ => panic!("unknown primitive"),
             }
         }
